@@ -1,3 +1,4 @@
 pub mod c09_number;
 pub mod dispatch;
+pub mod prog;
 pub mod step;
